@@ -19,6 +19,39 @@ theorem capAcc_zero (ds : List Nat) (hd : ∀ c ∈ ds, isD c = true) (h : digit
 theorem capAcc_zero_bound (ds : List Nat) (hd : ∀ c ∈ ds, isD c = true) :
     0 ≤ capAcc 0 ds ∧ capAcc 0 ds < 100000 := capAcc_bound ds hd 0 (by omega) (by omega)
 
+/-- beyond the cap the loop result saturates in `[10000, 99999]` -/
+theorem capAcc_big (ds : List Nat) (hd : ∀ c ∈ ds, isD c = true) (a : Nat) (ha : a < 100000)
+    (h : 10000 ≤ a ∨ 100000 ≤ accDigits a ds) : 10000 ≤ capAcc (a : Int) ds := by
+  induction ds generalizing a with
+  | nil =>
+    simp only [capAcc, List.foldl_nil]
+    rcases h with h | h
+    · omega
+    · rw [accDigits_nil] at h; omega
+  | cons c r ih =>
+    have hc : isD c = true := hd c (by simp)
+    rw [isD_iff] at hc
+    simp only [capAcc, List.foldl_cons]
+    by_cases hlt : (a : Int) < 10000
+    · simp only [hlt, if_true]
+      have e1 : (a : Int) * 10 + ((c : Int) - 48) = ((a * 10 + (c - 48) : Nat) : Int) := by omega
+      rw [e1]
+      apply ih (fun x hx => hd x (by simp [hx])) _ (by omega)
+      rcases h with h | h
+      · omega
+      · right; rw [accDigits_cons] at h; exact h
+    · simp only [hlt, if_false]
+      exact ih (fun x hx => hd x (by simp [hx])) a ha (Or.inl (by omega))
+
+theorem capAcc_zero_big (ds : List Nat) (hd : ∀ c ∈ ds, isD c = true) (h : 100000 ≤ digitsVal ds) :
+    10000 ≤ capAcc 0 ds := by
+  have := capAcc_big ds hd 0 (by omega) (Or.inr (by rw [← digitsVal_eq]; exact h))
+  simpa using this
+
+/-- what the capped exponent loop leaves for a written exponent `ev` of magnitude 100000 or more: a value of the
+    same sign and magnitude at least 10000 -/
+def ExpSat (ev' ev : Int) : Prop := 100000 ≤ ev.natAbs → (0 < ev → 10000 ≤ ev') ∧ (ev < 0 → ev' ≤ -10000)
+
 theorem expSign_cons (d : Nat) (r : List Nat) :
     expSign (d :: r) = if d = 43 then (1, 1) else if d = 45 then (-1, 1) else (1, 0) := by
   unfold expSign
@@ -121,13 +154,13 @@ theorem expTail_some (neg : Bool) (s : List Nat) (i man : Nat) (exp10 : Int) (tr
     (ex : Option (Int × Nat)) (h : scanExp s = some ex) :
     ∃ ev' : Int, expTail neg s i man exp10 trunc
         = .float { neg := neg, man := man, exp10 := exp10 + ev', trunc := trunc, next := i + expLen ex } ∧
-      ((expVal ex).natAbs < 100000 → ev' = expVal ex) ∧ ev'.natAbs < 100000 := by
+      ((expVal ex).natAbs < 100000 → ev' = expVal ex) ∧ ev'.natAbs < 100000 ∧ ExpSat ev' (expVal ex) := by
   have hnone : ∀ (_ : isE (hd s) = false) (_ : ex = none), ∃ ev' : Int, expTail neg s i man exp10 trunc
         = .float { neg := neg, man := man, exp10 := exp10 + ev', trunc := trunc, next := i + expLen ex } ∧
-      ((expVal ex).natAbs < 100000 → ev' = expVal ex) ∧ ev'.natAbs < 100000 := by
+      ((expVal ex).natAbs < 100000 → ev' = expVal ex) ∧ ev'.natAbs < 100000 ∧ ExpSat ev' (expVal ex) := by
     intro hE hex
     subst hex
-    exact ⟨0, by simp [expTail, hE, expLen], by simp [expVal], by simp⟩
+    exact ⟨0, by simp [expTail, hE, expLen], by simp [expVal], by simp, fun h => by simp [expVal] at h⟩
   cases s with
   | nil => simp [scanExp] at h; exact hnone (by simp [hd, isE]) h.symm
   | cons c r =>
@@ -141,7 +174,7 @@ theorem expTail_some (neg : Bool) (s : List Nat) (i man : Nat) (exp10 : Int) (tr
         generalize hds : takeDigits (r.drop (expSign r).2) = ds at *
         have hall : ∀ c ∈ ds, isD c = true := by rw [← hds]; exact takeDigits_all _
         have hb := capAcc_zero_bound ds hall
-        refine ⟨capAcc 0 ds * (expSign r).1, ?_, ?_, ?_⟩
+        refine ⟨capAcc 0 ds * (expSign r).1, ?_, ?_, ?_, ?_⟩
         · simp only [expTail, hd, List.headD_cons, hE, Bool.not_true, Bool.false_eq_true, if_false, doubleExp_eq, hds,
             hd0, expLen]
           congr 2; omega
@@ -151,6 +184,12 @@ theorem expTail_some (neg : Bool) (s : List Nat) (i man : Nat) (exp10 : Int) (tr
             rcases expSign_abs r with h1 | h1 <;> rw [h1] at hlt <;> omega
           rw [capAcc_zero ds hall hv, Int.mul_comm]
         · rcases expSign_abs r with h1 | h1 <;> rw [h1] <;> omega
+        · intro hbig
+          simp only [expVal] at hbig ⊢
+          have hv : 100000 ≤ digitsVal ds := by
+            rcases expSign_abs r with h1 | h1 <;> rw [h1] at hbig <;> omega
+          have hcap := capAcc_zero_big ds hall hv
+          rcases expSign_abs r with h1 | h1 <;> rw [h1] <;> constructor <;> intro _ <;> omega
     · have hE : isE c = false := by
         cases h' : isE c with
         | false => rfl
